@@ -10,6 +10,8 @@ OPT_SRCS = ["src/solver.cc", "src/option.cc", "src/format.cc", "src/os.cc", "src
             "src/utils_string.cc", "src/utils_file.cc", "src/utils_clock.cc", "src/expr-info.cc", "src/nl-reader.cc"]
 
 TARGETS = {
+    # SignalHandler lives in src/solver.cc too; no sanitizer: signal handlers and fork per schedule
+    "h_signals": lambda: build("h_signals", OPT_SRCS, "plain", harness_srcs=["h_signals.cc"]),
     "h_options": lambda: build("h_options", OPT_SRCS, "asan", harness_srcs=["h_options.cc"]),
     "h_exprtree": lambda: build("h_exprtree", EXPR_SRCS, "asan", harness_srcs=["h_exprtree.cc"]),
 }
